@@ -364,8 +364,8 @@ func checkC12(c C12Case) (vs []*Violation) {
 				<-mdone // must complete although the request is still in flight
 				close(release)
 			}
-		case <-time.After(5 * time.Second):
-			addV(viol("", "stepped schedule: the request never reached the pause point %q", c.Stepped.Point))
+		case <-time.After(30 * time.Second):
+			inconclusive("C12", "TestC12", "stepped schedule: the request did not reach the pause point "+c.Stepped.Point+" within 30s")
 			close(release)
 		}
 		go func() { wg.Wait(); close(done) }()
@@ -413,14 +413,14 @@ func checkC12(c C12Case) (vs []*Violation) {
 	}
 	select {
 	case <-done:
-	case <-time.After(60 * time.Second):
+	case <-time.After(120 * time.Second):
 		buf := make([]byte, 1<<20)
 		buf = buf[:runtime.Stack(buf, true)]
 		dump := string(buf)
 		if strings.Contains(dump, "sync.(*RWMutex)") || strings.Contains(dump, "chan send") || strings.Contains(dump, "chan receive") {
-			addV(viol("", "goroutines did not finish within 60s; dump shows blocked goroutines:\n%s", truncate([]byte(dump), 3000)))
+			addV(viol("", "goroutines did not finish within 120s; dump shows blocked goroutines:\n%s", truncate([]byte(dump), 3000)))
 		} else {
-			inconclusive("C12", "TestC12", "goroutines did not finish within 60s and the dump shows no blocked goroutine")
+			inconclusive("C12", "TestC12", "goroutines did not finish within 120s and the dump shows no blocked goroutine")
 		}
 	}
 	if len(vs) == 0 {
